@@ -94,6 +94,11 @@ pub fn actions_menu() -> Vec<Option<Action>> {
         Some(upd(true, 5.0, Some(c(2.0)))),
         Some(upd(false, 7.0, Some(u(0.0, 2.0)))),
         Some(upd(true, 8.0, Some(c(0.0)))),
+        // boundary value 0 in every timeout / duration position
+        Some(pad(true, true, 0.0, None)),
+        Some(blk(false, true, 0.0, 0.0, None)),
+        Some(upd(true, 0.0, None)),
+        Some(upd(false, 0.0, Some(c(1.0)))),
     ]
 }
 
@@ -451,6 +456,12 @@ pub fn big_dists() -> Vec<(&'static str, Dist)> {
         ("start_inf_uniform", Dist::new(DistType::Uniform { low: 1.0, high: 2.0 }, 1e18, 0.0)),
         ("normal_huge", Dist::new(DistType::Normal { mean: 1e12, stdev: 1e11 }, 0.0, 0.0)),
         ("poisson_big", Dist::new(DistType::Poisson { lambda: 1e13 }, 0.0, 0.0)),
+        // an explicit maximum above one day must not switch the day clamp off
+        ("const30h_max48h", Dist::new(DistType::Uniform { low: 108e9, high: 108e9 }, 0.0, 172.8e9)),
+        ("pareto_max1e300", Dist::new(DistType::Pareto { scale: 1e10, shape: 0.1 }, 0.0, 1e300)),
+        ("uniform_huge_max1e299", Dist::new(DistType::Uniform { low: 0.0, high: 1e300 }, 0.0, 1e299)),
+        ("start1e12_max1e13", Dist::new(DistType::Uniform { low: 1.0, high: 2.0 }, 1e12, 1e13)),
+        ("max_just_above_day", Dist::new(DistType::Uniform { low: 0.0, high: 1e12 }, 0.0, 86_400_000_001.0)),
     ]
 }
 /// One machine per big distribution and action kind (timeout and duration positions).
